@@ -220,6 +220,12 @@ class AST:
                     self._recs.append(n)
             elif k == 'EnumDecl' and 'name' in n:
                 self._enums.append(n)
+        self._rec_raw = set()
+        for n in self._recs:
+            try:
+                self._rec_raw.add(norm_tname(self.qualname(n)))
+            except LowerError:
+                pass
         for n in self._recs:
             self.records.setdefault(self.canon(self.qualname(n)), n)
         for n in self._enums:
@@ -269,6 +275,12 @@ class AST:
                 suf = a[-1] + suf
                 a = a[:-1].rstrip()
         a = self.canon(a)
+        raw = getattr(self, '_rec_raw', None)
+        if raw is not None and a not in BUILTIN and a not in self.typedefs and a not in raw and not a.startswith('Qentem::') and not a.startswith('QV::'):
+            # a class name spelled relative to an enclosing namespace: qualify it when that is unambiguous
+            c = [r for r in raw if r.endswith('::' + a)]
+            if len(c) == 1:
+                a = c[0]
         seen = 0
         while a in self.typedefs and seen < 20:
             t = self.typedefs[a]
@@ -743,6 +755,7 @@ class Lowerer:
         finally:
             self.cur, self.local_alias = saved
         info['loops'] = ctx['loop_ix']
+        info['loop_map'] = ctx.get('loop_map', {})
         nl = len(spec.get('loops') or {})
         if spec.get('loops') is not None and nl and nl != ctx['loop_ix'] and not spec.get('loops_partial'):
             raise LowerError('%s: spec has %d loop contracts, function has %d loops' % (cname, nl, ctx['loop_ix']))
@@ -981,12 +994,18 @@ class Lowerer:
             return s
         if k == 'WhileStmt':
             cond, body = n['inner'][0], n['inner'][1]
+            my_ix = self.cur['loop_ix']
             lc = self.loop_contract(d)
-            return ld + I + 'while (%s)\n%s' % (self.expr(cond), lc) + self.stmt_block(body, d)
+            txt = ld + I + 'while (%s)\n%s' % (self.expr(cond), lc) + self.stmt_block(body, d)
+            self.loop_closed(my_ix)
+            return txt
         if k == 'DoStmt':
             body, cond = n['inner'][0], n['inner'][1]
+            my_ix = self.cur['loop_ix']
             lc = self.loop_contract(d)
-            return ld + I + 'do\n' + lc + self.stmt_block(body, d) + I + 'while (%s);\n' % self.expr(cond)
+            txt = ld + I + 'do\n' + lc + self.stmt_block(body, d) + I + 'while (%s);\n' % self.expr(cond)
+            self.loop_closed(my_ix)
+            return txt
         if k == 'ForStmt':
             init, condvar, cond, inc, body = n['inner']
             lcpos = self.cur['loop_ix']
@@ -996,6 +1015,7 @@ class Lowerer:
             lc = self.loop_contract(d + 1)
             s += self.ind(d + 1) + 'for (; %s; %s)\n%s' % (self.expr(cond) if cond and cond.get('kind') else '1', self.expr(inc) if inc and inc.get('kind') else '', lc)
             s += self.stmt_block(body, d + 1) + I + '}\n'
+            self.loop_closed(lcpos)
             return s
         if k == 'SwitchStmt':
             cond, body = n['inner'][0], n['inner'][1]
@@ -1021,6 +1041,11 @@ class Lowerer:
         if n.get('kind') == 'CompoundStmt':
             return self.stmt(n, d)
         return self.ind(d) + '{\n' + self.stmt(n, d + 1) + self.ind(d) + '}\n'
+
+    def loop_closed(self, ordinal):
+        """CBMC numbers the loops of a function by the order of their back edges (inner loops first)"""
+        m = self.cur.setdefault('loop_map', {})
+        m[ordinal] = len(m)
 
     def loop_contract(self, d):
         ix = self.cur['loop_ix']
@@ -1083,9 +1108,15 @@ class Lowerer:
                 raise LowerError('reference without init')
             return I + '%s = &(%s);\n' % (t.decl(name), self.expr(init))
         if static:
-            # function-local static constexpr table
+            # function-local static table
             txt = self.static_init(t, init)
-            return I + 'static %s = %s;\n' % (t.decl(name), txt)
+            d_ = t.decl(name)
+            if t.is_array() and not self._is_const_decl(t) and self.only_read_by_subscript(c):
+                # never written anywhere (every use is an rvalue subscript): emit it const so that the verifier's
+                # nondet-initialisation of mutable statics cannot invent other contents
+                k_ = d_.index(name)
+                d_ = d_[:k_] + 'const ' + d_[k_:] if t.deref().is_ptr() else 'const ' + d_
+            return I + 'static %s = %s;\n' % (d_, txt)
         if t.is_array() or t.is_record():
             s = I + t.decl(name, keep_const=False) + ';\n'
             if init is not None:
@@ -1094,6 +1125,34 @@ class Lowerer:
         if init is None:
             return I + t.decl(name, keep_const=False) + ';\n'
         return I + '%s = %s;\n' % (t.decl(name, keep_const=False), self.expr(init))
+
+    def _is_const_decl(self, t):
+        et = t
+        while et.is_array():
+            et = et.deref()
+        if et.is_ptr():
+            return bool(et.derivs[-1][1])
+        return et.base_const
+
+    def only_read_by_subscript(self, var):
+        """every reference to the local static `var` in the current function is  var[i]  used as an rvalue"""
+        fn = self.cur.get('node')
+        ok = [True]
+
+        def walk(n, chain):
+            if not isinstance(n, dict):
+                return
+            if n.get('kind') == 'DeclRefExpr' and n.get('referencedDecl', {}).get('id') == var['id']:
+                c = [x for x in chain if x.get('kind') != 'ParenExpr'][-3:]
+                kinds = [x.get('kind') for x in c]
+                good = (len(c) == 3 and kinds[2] == 'ImplicitCastExpr' and c[2].get('castKind') == 'ArrayToPointerDecay'
+                        and kinds[1] == 'ArraySubscriptExpr' and kinds[0] == 'ImplicitCastExpr' and c[0].get('castKind') == 'LValueToRValue')
+                if not good:
+                    ok[0] = False
+            for ch in n.get('inner', []):
+                walk(ch, chain + [n])
+        walk(fn, [])
+        return ok[0]
 
     def static_init(self, t, e):
         """C constant initialiser text"""
@@ -1119,6 +1178,15 @@ class Lowerer:
         v = self.const_eval(e)
         if v is not None and not t.derivs and t.kind == 'scalar' and t.base not in ('float', 'double'):
             return self.lit_value(v, t) if v >= 0 else '(%d)' % v
+        # a constant that names another constant object: C wants the initialiser itself
+        se = e
+        while se.get('kind') in ('ImplicitCastExpr', 'ParenExpr', 'ConstantExpr') and se.get('inner'):
+            se = se['inner'][-1]
+        if se.get('kind') == 'DeclRefExpr' and se['referencedDecl'].get('kind') == 'VarDecl':
+            full = self.ast.by_id.get(se['referencedDecl']['id'], {})
+            d = self.ast.var_def.get(full.get('mangledName'), full)
+            if d.get('inner') and d.get('init') and (d.get('constexpr') or 'const' in (d['type'].get('qualType') or '')):
+                return self.static_init(t, d['inner'][-1])
         return self.expr(e)
 
     def static_init_field(self, x):
@@ -1666,6 +1734,11 @@ class Lowerer:
         nm = callee.get('name', '')
         if nm.startswith('__builtin_') or nm.startswith('_mm'):
             return self.builtin_call(nm, callee, args)
+        if nm in ('operator new', 'operator new[]') and len(args) == 1:
+            # ::operator new(size) -> malloc(size); allocation failure is not modelled (listed as an assumption)
+            return 'malloc(%s)' % self.expr(args[0])
+        if nm in ('operator delete', 'operator delete[]') and len(args) >= 1:
+            return 'free(%s)' % self.expr(args[0])
         cname = self.request_fn(callee)
         d = self.ast.fn_def.get(callee.get('mangledName'), callee)
         s = '%s(%s)' % (cname, ', '.join(self.call_args(d, args)))
